@@ -178,7 +178,9 @@ impl BlockRangeExt for BlockRange {
         let start = *self.start();
         let end = *self.end();
 
-        let Some(adjusted_end) = start.saturating_add(limit).checked_sub(1) else {
+        // `limit == 0` is an empty range; otherwise saturate so that a range
+        // ending at `u64::MAX` keeps its last element.
+        let Some(adjusted_end) = limit.checked_sub(1).map(|n| start.saturating_add(n)) else {
             return RangeInclusive::new(1, 0);
         };
 
